@@ -16,6 +16,9 @@ import felupe as fem  # noqa: E402
 import felupe.constitution.jax as fj  # noqa: E402
 import felupe.constitution.jax.models.hyperelastic as jh  # noqa: E402
 import felupe.constitution.tensortrax.models.hyperelastic as th  # noqa: E402
+import felupe.constitution.jax.models.hyperelastic.microsphere as jms  # noqa: E402
+import felupe.constitution.jax.models.lagrange as jl  # noqa: E402
+import felupe.constitution.tensortrax.models.hyperelastic.microsphere as tms  # noqa: E402
 import felupe.constitution.tensortrax.models.lagrange as tl  # noqa: E402
 
 from .common import Out, args, q, qi  # noqa: E402
@@ -104,7 +107,48 @@ def models(tier):
     add("tt.updated_lagrange-neohooke", fem.MaterialAD(fem.updated_lagrange(_nh_cauchy), mu=1.0, lmbda=2.0))
     add("tt.morph", fem.MaterialAD(tl.morph, p=[0.039, 0.371, 0.174, 2.41, 0.0094, 6.84, 5.65, 0.244], nstatevars=13),
         sv=lambda n: np.zeros((13, n, 1)), hyper=False, iso=False)
+    # Seth-Hill generalisations of the Saint-Venant Kirchhoff models (principal-stretch branch), isotropic and orthotropic
+    for k in (0, 1, -1):
+        add("tt.saint_venant_kirchhoff-k%d" % k, fem.Hyperelastic(th.saint_venant_kirchhoff, k=k, **PAR["saint_venant_kirchhoff"]))
+    # (the orthotropic version differentiates through the eigen-PROJECTIONS, whose higher derivatives grow like 1 / gap^n: the
+    #  truncation error of the h = 2^-6 stencil at a stretch gap of 0.08 is ~64 times that of the smooth models)
+    add("tt.saint_venant_kirchhoff_orthotropic-k0", fem.Hyperelastic(th.saint_venant_kirchhoff_orthotropic, k=0, **PAR["saint_venant_kirchhoff_orthotropic"]),
+        iso=False, tolscale=64)
+    # user models built on the affine micro-sphere frameworks (21-point rule: objective, only approximately isotropic)
+    add("tt.microsphere-affine", fem.Hyperelastic(_affine(tms), mu=1.0), iso=False)
+    add("jax.microsphere-affine", fj.Hyperelastic(_affine(jms), mu=1.0), iso=False)
+    # remaining Lagrange-type models with state variables, both back-ends; finite-strain viscoelasticity
+    MP = [0.039, 0.371, 0.174, 2.41, 0.0094, 6.84, 5.65, 0.244]
+    add("jax.morph", fj.Material(jl.morph, p=MP, nstatevars=13), sv=lambda n: np.zeros((13, n, 1)), hyper=False, iso=False)
+    if tier != "quick":
+        add("tt.morph_representative_directions", fem.MaterialAD(tl.morph_representative_directions, p=MP, nstatevars=84),
+            sv=lambda n: np.zeros((84, n, 1)), hyper=False, iso=False)
+        add("jax.morph_representative_directions", fj.Material(jl.morph_representative_directions, p=MP, nstatevars=84),
+            sv=lambda n: np.zeros((84, n, 1)), hyper=False, iso=False)
+    add("tt.finite_strain_viscoelastic", fem.Hyperelastic(th.finite_strain_viscoelastic, mu=1.0, eta=2.0, dtime=0.5, nstatevars=6),
+        sv=lambda n: np.tile(np.array([1.0, 0.0, 0.0, 1.0, 0.0, 1.0])[:, None, None], (1, n, 1)), hyper=False, iso=False)     # C_in = 1 (upper triangle)
+    add("jax.total_lagrange-svk", fj.Material(fj.total_lagrange(_svk_S_jax), mu=1.0, lmbda=2.0))
+    add("jax.updated_lagrange-neohooke", fj.Material(fj.updated_lagrange(_nh_cauchy_jax), mu=1.0, lmbda=2.0))
     return {k: v for k, v in M.items() if v["um"] is not None}
+
+
+def _affine(ms):
+    def fun(C, mu):
+        return (ms.affine_stretch(C, f=lambda lam, mu: mu / 2 * (lam ** 2 - 1), kwargs=dict(mu=mu))
+                + ms.affine_tube(C, f=lambda la, mu: mu / 4 * (la ** 2 - 1), kwargs=dict(mu=mu)))
+    return fun
+
+
+def _svk_S_jax(F, mu, lmbda):
+    import jax.numpy as jnp
+    E = (F.T @ F - jnp.eye(3)) / 2
+    return 2 * mu * E + lmbda * jnp.trace(E) * jnp.eye(3)
+
+
+def _nh_cauchy_jax(F, mu, lmbda):
+    import jax.numpy as jnp
+    J = jnp.linalg.det(F)
+    return (mu * (F @ F.T - jnp.eye(3)) + lmbda * jnp.log(J) * jnp.eye(3)) / J
 
 
 def _svk_S(F, mu, lmbda):
@@ -332,6 +376,15 @@ def c12(out, a):
           wrap(fem.Hyperelastic(th.ogden_roxburgh, material=th.neo_hooke, mu=1.0, r=3.0, m=1.0, beta=0.125, nstatevars=1)), sva=sv, svb=sv)
     agree("agree-SVK-total-lagrange", wrap(fem.Hyperelastic(th.saint_venant_kirchhoff, mu=1.0, lmbda=2.0)), M["tt.total_lagrange-svk"]) \
         if "tt.total_lagrange-svk" in M else None
+    # the same user model through both back-ends' wrappers and frameworks; Lagrange models with state variables in both back-ends
+    agree("agree-total-lagrange-jax-tt", M["jax.total_lagrange-svk"], M["tt.total_lagrange-svk"])
+    agree("agree-updated-lagrange-jax-tt", M["jax.updated_lagrange-neohooke"], M["tt.updated_lagrange-neohooke"])
+    agree("agree-microsphere-affine-jax-tt", M["jax.microsphere-affine"], M["tt.microsphere-affine"])
+    sv13 = np.zeros((13, n, 1))
+    agree("agree-morph-jax-tt", M["jax.morph"], M["tt.morph"], sva=sv13, svb=sv13)
+    if "jax.morph_representative_directions" in M:
+        sv84 = np.zeros((84, n, 1))
+        agree("agree-morph-rd-jax-tt", M["jax.morph_representative_directions"], M["tt.morph_representative_directions"], sva=sv84, svb=sv84)
     # linear elasticity: component-wise <-> tensor notation <-> small-strain framework
     le, lt = fem.LinearElastic(E=2.0, nu=0.25), fem.constitution.LinearElasticTensorNotation(E=2.0, nu=0.25)
     agree("agree-LinearElastic-tensor", wrap(le), wrap(lt))
@@ -366,6 +419,23 @@ def c12(out, a):
         s3 = np.asarray(le.gradient([F3, None])[0], float)
         out.write({"id": rid + "-AgreeStress", "kind": "agree", "nt": True, "clause": "AgreeStress", "tol": 8, "relbits": 15,
                    "a": q(s2[:2, :2], S), "b": q(s3[:2, :2], S)})
+        # the full (3, 3) stress the 2-d classes report (out-of-plane stress nu (s11 + s22) in plane strain, zero in plane stress)
+        if out.want(rid + "-full-AgreeStress"):
+            out.attempt(rid + "-full-AgreeStress", lambda: {
+                "id": rid + "-full-AgreeStress", "kind": "agree", "nt": True, "clause": "AgreeStress", "tol": 8, "relbits": 15,
+                "a": q(np.asarray(u2.stress([F2, None])[0], float), S), "b": q(s3, S)})
+        # elasticity: in-plane block of the 3-d tangent under the constraint (plane strain: C_abcd; plane stress: condensed)
+        if out.want(rid + "-AgreeElasticity"):
+            A2 = np.asarray(u2.hessian([F2, None])[0], float)
+            A2 = np.broadcast_to(A2, A2.shape[:4] + (n, 1))
+            C3 = np.asarray(le.hessian([F3, None])[0], float)
+            C3 = np.broadcast_to(C3, C3.shape[:4] + (n, 1))
+            if kind == "strain":
+                ref = C3[:2, :2, :2, :2]
+            else:       # static condensation of e33:  C_abcd - C_ab33 C_33cd / C_3333
+                ref = C3[:2, :2, :2, :2] - np.einsum("ab...,cd...->abcd...", C3[:2, :2, 2, 2], C3[2, 2, :2, :2]) / C3[2, 2, 2, 2]
+            out.write({"id": rid + "-AgreeElasticity", "kind": "agree", "nt": True, "clause": "AgreeElasticity", "tol": 8, "relbits": 15,
+                       "a": q(A2, S), "b": q(ref, S)})
     # documented initial moduli
     keyed = [(nm, m) for nm, m in M.items() if m.get("key") and not nm.startswith("jax.")] + [(nm, m) for nm, m in M.items() if m.get("key") and nm.startswith("jax.")]
     for nm, m in keyed:
